@@ -128,38 +128,30 @@ def vsl_options(N):
 
 
 def deviations(spec: NetSpec):
-    """List of single-slot deviations: (slot id, function spec -> spec)."""
+    """List of single-ELEMENT deviations: (slot id, deviation).  A link deviates in its (segment count,
+    VSL set) jointly - every combination of N in 1..3 with no VSL / first / last / all / empty set - so that
+    interactions inside one element (e.g. one segment AND an empty VSL set) are within c = 1."""
     devs = []
     for i, l in enumerate(spec.links):
-        for N in (1, 3):
-            devs.append((("L", i, "N"), ("N", i, N)))
-        for vs in vsl_options(l.N):
-            devs.append((("L", i, "vsl"), ("vsl", i, vs)))
+        for N in (1, 2, 3):
+            for vs in [None] + vsl_options(N):
+                if (N, vs) != (l.N, l.vsl):
+                    devs.append((("L", i), ("link", i, N, vs)))
     for j, o in enumerate(spec.origins):
         alts = ("main",) if o.kind == "ideal" else ("ramp_in", "simp_lim", "simp_unl")
         for k in alts:
-            devs.append((("O", j, "kind"), ("okind", j, k)))
+            devs.append((("O", j), ("okind", j, k)))
     for j, d in enumerate(spec.dests):
-        devs.append((("D", j, "kind"), ("dkind", j, "cong")))
+        devs.append((("D", j), ("dkind", j, "cong")))
     return devs
 
 
 def apply_dev(spec: NetSpec, dev) -> NetSpec:
     what = dev[0]
-    if what == "N":
-        _, i, N = dev
-        l = spec.links[i]
-        vsl = l.vsl
-        if vsl is not None:
-            vsl = tuple(s for s in vsl if s < N)
+    if what == "link":
+        _, i, N, vs = dev
         links = list(spec.links)
-        links[i] = replace(l, N=N, vsl=vsl)
-        return replace(spec, links=tuple(links))
-    if what == "vsl":
-        _, i, vs = dev
-        l = spec.links[i]
-        links = list(spec.links)
-        links[i] = replace(l, vsl=tuple(s for s in vs if s < l.N))
+        links[i] = replace(spec.links[i], N=N, vsl=vs)
         return replace(spec, links=tuple(links))
     if what == "okind":
         _, j, k = dev
@@ -232,9 +224,7 @@ def configurations(shape, c: int, palette: int = 0, uniform: bool = True):
         for (s1, d1), (s2, d2) in itertools.combinations(devs, 2):
             if s1 == s2:
                 continue
-            # N first so that VSL indices are interpreted against the final N
-            a, b = (d1, d2) if d1[0] == "N" else (d2, d1)
-            s = apply_dev(apply_dev(base, a), b)
+            s = apply_dev(apply_dev(base, d1), d2)
             r = emit(f"dev:{d1}+{d2}", s)
             if r:
                 yield r
